@@ -166,6 +166,13 @@ def run_replay(data):
                         violated.append("raise/" + raised)
                 except KeyError:
                     pass
+    nc = cls.__dict__.get("native_check")
+    if nc is not None and raised is None:
+        try:
+            more = nc(inputs, extra if extra else {"result": result})
+            violated.extend(more or [])
+        except Exception as e:
+            ens["native_check"] = "error: %r" % (e,)
     out["ensures"] = ens
     out["violated"] = violated
     out["reproduced"] = bool(violated) and out["requires"] is True
